@@ -748,7 +748,20 @@ def _compile_harness(src, out_name, extra_flags=None, sanitize=False, opt="-O1",
         raise MachineryError("compile timeout: " + src)
     if p.returncode != 0:
         raise MachineryError("harness does not compile against the current tree:\n" + p.stdout[-4000:])
+    # how this binary was built: replay artefacts carry it so that bin/replay can rebuild exactly this variant
+    BUILD_RECIPES[out_name] = {"src": os.path.basename(src), "extra_flags": list(extra_flags or []), "defines": list(defines or []),
+                               "ndebug": bool(ndebug), "opt": opt}
     return out
+
+
+BUILD_RECIPES = {}
+
+
+def replayer_line(replayer):
+    """first line of a replay artefact: '#replayer <binary name> <json recipe>'"""
+    name = os.path.basename(replayer)
+    rec = BUILD_RECIPES.get(name)
+    return "#replayer %s %s\n" % (name, json.dumps(rec, sort_keys=True)) if rec else "#replayer %s\n" % name
 
 
 def run_cmd(cmd, stdin_path=None, timeout=900, env=None, cwd=None):
